@@ -334,6 +334,8 @@ class Model:
         if name == "add_node":
             return Outcome(self._add_node(S, a["n"], a.get("md")))
         if name == "add_nodes":
+            if a.get("mds") is not None and any(n not in a["mds"] for n in a["ns"]):
+                return Outcome(same, must_raise=True, may_raise=True, rejected=same)  # uncovered node: refused as a whole
             states = [S.copy()]
             for n in a["ns"]:
                 md = None if a.get("mds") is None else a["mds"].get(n)
